@@ -16,6 +16,11 @@ import Mahotas.Proofs.C08TiesDilate
 import Mahotas.Proofs.C08TiesHitmiss
 import Mahotas.Proofs.C08Fast
 import Mahotas.Proofs.C08Rank
+import Mahotas.Proofs.C08ViewsA
+import Mahotas.Proofs.C08ViewsB
+import Mahotas.Proofs.C08ViewsCooc
+import Mahotas.Properties.C19
+import Mahotas.Properties.C17
 import Mahotas.Properties.C01
 import Mahotas.Properties.C04
 import Mahotas.Properties.C06
@@ -971,3 +976,384 @@ example : pyErodeView dtBool memI vI memB vB = fastBinaryView true memI vI memB 
     (fastBinaryView false memI vI memE vE).toList = [some 1, some 0, some 0, some 1, some 1, some 0] := by
   decide +kernel
 end Mahotas.C08.Example
+
+
+/-! ## Round 4 — more view kernels = the owners' logical models: the `at(pos)` kernels of `_morph.cpp`
+(`regmax`/`regmin`, `close_holes`, `majority_filter`) -/
+
+/-- **regmax / regmin over views = `C14.regModel`.** `py_regminmax` (zero fill, `locmin_max`, then
+`remove_fake_regmin_max`, which reads the image as `f.at(pos)` and `Bc` through `neighbours(Bc)`) on ANY views of the
+image and the structuring element (strides of any sign and order, offsets) returns, in every cell, the value of the
+owner's model on the logical arrays — the model `c14 kind=reg` runs. `….map some`: no cell is left unwritten (F15). -/
+theorem C08_regView_eq_C14 (isMin : Bool) (mA : Int → Int) (vA : View) (mB : Int → Int) (vB : View)
+    (h : FilterArgs vA vB true) :
+    regView isMin mA vA mB vB =
+      (C14.regModel isMin (toImg mA vA) (C14.neighbours vB.shape (logical mB vB).toArray)).map some :=
+  regView_eq_C14 isMin mA vA mB vB h
+
+/-- **regmax / regmin are layout-free**: two (image, `Bc`) pairs of views with the same logical content give the same
+output array. -/
+theorem C08_regmin_max_layout_free (isMin : Bool) (mA₁ mA₂ mB₁ mB₂ : Int → Int) (vA₁ vA₂ vB₁ vB₂ : View)
+    (h₁ : FilterArgs vA₁ vB₁ true) (h₂ : FilterArgs vA₂ vB₂ true)
+    (hA : SameLogical mA₁ vA₁ mA₂ vA₂) (hB : SameLogical mB₁ vB₁ mB₂ vB₂) :
+    regView isMin mA₁ vA₁ mB₁ vB₁ = regView isMin mA₂ vA₂ mB₂ vB₂ := by
+  rw [regView_eq_C14 isMin mA₁ vA₁ mB₁ vB₁ h₁, regView_eq_C14 isMin mA₂ vA₂ mB₂ vB₂ h₂, hA.toImg_eq]
+  obtain ⟨hl, hs⟩ := logical_eq_of_toImg _ _ _ _ hB.toImg_eq
+  rw [hl, hs]
+
+/-- **regmax / regmin are correct for any memory layout** (composition with `C14_regional_eq_spec`): with a symmetric,
+star-shaped neighbourhood (cross, box) the cell of a pixel `q` inside the image is `some true` exactly when every pixel
+of the plateau of `q` has no strictly better neighbour inside the image — whatever the strides of image and `Bc`. -/
+theorem C08_regmin_max_view_correct (isMin : Bool) (mA : Int → Int) (vA : View) (mB : Int → Int) (vB : View)
+    (h : FilterArgs vA vB true)
+    (hn : C14.SymNb (toImg mA vA) (C14.neighbours vB.shape (logical mB vB).toArray))
+    (hstar : C14.StarShaped (C14.neighbours vB.shape (logical mB vB).toArray))
+    (q : List Int) (hq : inside vA.shape q = true) :
+    (regView isMin mA vA mB vB).getD (ravelI vA.shape q) none = some true ↔
+      C14.Regional isMin (toImg mA vA) (C14.neighbours vB.shape (logical mB vB).toArray) q := by
+  rw [regView_eq_C14 isMin mA vA mB vB h]
+  have hsp := C14_regional_eq_spec isMin (toImg mA vA) _ hn hstar q hq
+  have hsh : (toImg mA vA).shape = vA.shape := rfl
+  rw [hsh] at hsp
+  rw [← hsp]
+  generalize C14.regModel isMin (toImg mA vA) (C14.neighbours vB.shape (logical mB vB).toArray) = r
+  generalize ravelI vA.shape q = i
+  simp only [Array.getD_eq_getD_getElem?, Array.getElem?_map]
+  cases r[i]? <;> simp
+
+/-- **close_holes over views = `C14.closeHoles`**: the reference image is read as `ref.at(pos)` only, so for ANY strides
+the kernel returns the owner's model of the logical image (the model `c14 kind=holes` runs); every cell is written
+(`std::fill_n` on the fresh output, then the negation loop). -/
+theorem C08_closeHolesView_eq_C14 (mR : Int → Int) (vR : View) (mB : Int → Int) (vB : View) (wfB : vB.WF) :
+    closeHolesView mR vR mB vB =
+      (C14.closeHoles (toImg mR vR) (C14.neighbours vB.shape (logical mB vB).toArray)).map some :=
+  closeHolesView_eq_C14 mR vR mB vB wfB
+
+/-- **close_holes is layout-free.** -/
+theorem C08_close_holes_layout_free (mR₁ mR₂ mB₁ mB₂ : Int → Int) (vR₁ vR₂ vB₁ vB₂ : View)
+    (wf₁ : vB₁.WF) (wf₂ : vB₂.WF)
+    (hR : SameLogical mR₁ vR₁ mR₂ vR₂) (hB : SameLogical mB₁ vB₁ mB₂ vB₂) :
+    closeHolesView mR₁ vR₁ mB₁ vB₁ = closeHolesView mR₂ vR₂ mB₂ vB₂ := by
+  rw [closeHolesView_eq_C14 mR₁ vR₁ mB₁ vB₁ wf₁, closeHolesView_eq_C14 mR₂ vR₂ mB₂ vB₂ wf₂, hR.toImg_eq]
+  obtain ⟨hl, hs⟩ := logical_eq_of_toImg _ _ _ _ hB.toImg_eq
+  rw [hl, hs]
+
+/-- **close_holes is correct for any memory layout** (composition with `C14_close_holes_eq_spec`): the cell of a pixel
+`q` inside the image is `some true` exactly when `q` is not connected to the border through background pixels. -/
+theorem C08_close_holes_view_correct (mR : Int → Int) (vR : View) (mB : Int → Int) (vB : View) (wfB : vB.WF)
+    (q : List Int) (hq : inside vR.shape q = true) :
+    (closeHolesView mR vR mB vB).getD (ravelI vR.shape q) none = some true ↔
+      ¬ C14.BorderConn (toImg mR vR) (C14.neighbours vB.shape (logical mB vB).toArray) q := by
+  rw [closeHolesView_eq_C14 mR vR mB vB wfB]
+  have hwf : (toImg mR vR).data.size = shapeSize (toImg mR vR).shape := by
+    simp [toImg, logical_length]
+  have hsp := C14_close_holes_eq_spec (toImg mR vR) (C14.neighbours vB.shape (logical mB vB).toArray) hwf q hq
+  have hsh : (toImg mR vR).shape = vR.shape := rfl
+  rw [hsh] at hsp
+  rw [← hsp]
+  generalize C14.closeHoles (toImg mR vR) (C14.neighbours vB.shape (logical mB vB).toArray) = r
+  generalize ravelI vR.shape q = i
+  simp only [Array.getD_eq_getD_getElem?, Array.getElem?_map]
+  cases r[i]? <;> simp
+
+/-- **majority_filter over views = the same loops on the logical image**, for ANY strides of the input
+(`input.at(y+dy, x+dx)` = `PyArray_GETPTR2`); window size, the `!= rows-N` loop bounds and the threshold `N*N/2` as in the
+C++. -/
+theorem C08_majorityView_eq_logical (n : Nat) (mA : Int → Int) (vA : View) :
+    majorityView n mA vA = majorityLogical n (toImg mA vA) :=
+  majorityView_eq_logical n mA vA
+
+/-- **majority_filter is layout-free.** -/
+theorem C08_majority_filter_layout_free (n : Nat) (mA₁ mA₂ : Int → Int) (vA₁ vA₂ : View)
+    (hA : SameLogical mA₁ vA₁ mA₂ vA₂) :
+    majorityView n mA₁ vA₁ = majorityView n mA₂ vA₂ := by
+  rw [majorityView_eq_logical, majorityView_eq_logical, hA.toImg_eq]
+
+/-- **majority_filter, pointwise, for any memory layout.** For a `rows × cols` view of ANY strides and a window `N ≤ rows, cols`:
+cell `i` of the output is `some true` exactly when some window the loops visit (`y < rows−N`, `x < cols−N` — the last window row and
+column are not visited, as in the C++) whose output position `(y+N/2)*cols + N/2 + x` is `i` contains at least `N*N/2` set pixels of
+the LOGICAL image; every other cell is `some false`. -/
+theorem C08_majority_filter_view_spec (n : Nat) (mA : Int → Int) (vA : View) (rows cols : Nat) (hs : vA.shape = [rows, cols])
+    (hr : n ≤ rows) (hc : n ≤ cols) (i : Nat) (hi : i < rows * cols) :
+    (majorityView n mA vA).getD i none =
+      some ((List.range (rows - n)).any fun y => (List.range (cols - n)).any fun x =>
+        decide (majorityCount n (fun y x => (toImg mA vA).getD [(y : Int), (x : Int)] 0 != 0) y x ≥ n * n / 2) &&
+          ((y + n / 2) * cols + n / 2 + x == i)) := by
+  rw [majorityView_eq_logical]
+  unfold majorityLogical
+  have : (toImg mA vA).shape = [rows, cols] := hs
+  rw [this]
+  exact majorityLoops_spec rows cols n _ hr hc i hi
+
+/-- **F15 for regmax/regmin, close_holes, majority_filter**: every cell of their outputs is written, for every layout:
+the first two are `….map some` of a total model, the third starts from the zero fill and only ever stores `true`. -/
+theorem C08_defined_everywhere_morph_at_kernels (isMin : Bool) (n : Nat) (mA : Int → Int) (vA : View)
+    (mB : Int → Int) (vB : View) (h : FilterArgs vA vB true) (rows cols : Nat) (hs : vA.shape = [rows, cols]) :
+    (∀ i, i < (regView isMin mA vA mB vB).size → ((regView isMin mA vA mB vB).getD i none).isSome = true) ∧
+    (∀ i, i < (closeHolesView mA vA mB vB).size → ((closeHolesView mA vA mB vB).getD i none).isSome = true) ∧
+    (majorityView n mA vA).size = rows * cols ∧
+    (∀ i, i < rows * cols → ((majorityView n mA vA).getD i none).isSome = true) := by
+  refine ⟨?_, ?_, ?_, ?_⟩
+  · rw [regView_eq_C14 isMin mA vA mB vB h]
+    intro i hi
+    simp only [Array.size_map] at hi
+    simp [Array.getD_eq_getD_getElem?, hi]
+  · rw [closeHolesView_eq_C14 mA vA mB vB h.wfF]
+    intro i hi
+    simp only [Array.size_map] at hi
+    simp [Array.getD_eq_getD_getElem?, hi]
+  · unfold majorityView; rw [hs]; exact (majorityLoops_defined rows cols n _).1
+  · unfold majorityView; rw [hs]; exact (majorityLoops_defined rows cols n _).2
+
+namespace Mahotas.C08.Example4
+open Mahotas.C08.Example
+/-- a 3×3 image with one interior plateau maximum, stored in Fortran order and (second copy) reversed with a gap -/
+def memR : Int → Int := fun a => [1, 1, 1, 1, 5, 1, 1, 1, 2].getD a.toNat 0
+def vRF : View := { base := 0, shape := [3, 3], strides := [1, 3] }
+def memR2 : Int → Int := fun a => [2, 0, 1, 0, 1, 0, 1, 0, 5, 0, 1, 0, 1, 0, 1, 0, 1].getD a.toNat 0
+def vRN : View := { base := 16, shape := [3, 3], strides := [-6, -2] }
+def memX : Int → Int := fun a => [0, 1, 0, 1, 0, 1, 0, 1, 0].getD a.toNat 0     -- the cross without its centre
+def vX : View := { base := 0, shape := [3, 3], strides := [3, 1], carray := true }
+
+theorem faR : FilterArgs vRF vX true :=
+  ⟨⟨rfl, by decide⟩, ⟨rfl, by decide⟩, by (unfold View.Pos; decide), by (unfold View.Pos; decide), rfl, fun h => by cases h⟩
+theorem faR2 : FilterArgs vRN vX true :=
+  ⟨⟨rfl, by decide⟩, ⟨rfl, by decide⟩, by (unfold View.Pos; decide), by (unfold View.Pos; decide), rfl, fun h => by cases h⟩
+
+example : SameLogical memR vRF memR2 vRN ∧ logical memR vRF = [1, 1, 1, 1, 5, 1, 1, 1, 2] ∧
+    regView false memR vRF memX vX = regView false memR2 vRN memX vX ∧
+    (regView false memR vRF memX vX).toList =
+      [some false, some false, some false, some false, some true, some false, some false, some false, some true] ∧
+    (locView false memR vRF memX vX).toList =
+      [some true, some false, some true, some false, some true, some false, some true, some false, some true] := by
+  refine ⟨⟨rfl, by decide⟩, by decide, ?_, by decide +kernel, by decide +kernel⟩
+  exact C08_regmin_max_layout_free false memR memR2 memX memX vRF vRN vX vX faR faR2 ⟨rfl, by decide⟩ ⟨rfl, fun _ _ => rfl⟩
+
+/-- a ring with a hole, Fortran order: the hole is closed; majority filter of a 4×4 view with negative strides -/
+def memO : Int → Int := fun a => [0, 0, 0, 0, 0, 0, 1, 1, 1, 0, 0, 1, 0, 1, 0, 0, 1, 1, 1, 0, 0, 0, 0, 0, 0].getD a.toNat 0
+def vO : View := { base := 0, shape := [5, 5], strides := [1, 5] }
+example : (closeHolesView memO vO memX vX).toList.map (fun o => o.getD false) =
+    [false, false, false, false, false, false, true, true, true, false, false, true, true, true, false,
+     false, true, true, true, false, false, false, false, false, false] := by decide +kernel
+
+def memJ : Int → Int := fun a => [1, 1, 1, 0, 1, 1, 0, 0, 1, 0, 0, 0, 0, 0, 0, 0].getD a.toNat 0
+def vJ : View := { base := 0, shape := [4, 4], strides := [1, 4] }                -- Fortran order
+def vJn : View := { base := 15, shape := [4, 4], strides := [-4, -1] }             -- both axes reversed
+example : logical memJ vJ = [1, 1, 1, 0, 1, 1, 0, 0, 1, 0, 0, 0, 0, 0, 0, 0] ∧
+    logical memJ vJn = [0, 0, 0, 0, 0, 0, 0, 1, 0, 0, 1, 1, 0, 1, 1, 1] ∧
+    (majorityView 2 memJ vJ).toList.map (fun o => o.getD false) =
+      [false, false, false, false, false, true, true, false, false, true, false, false, false, false, false, false] ∧
+    (majorityView 3 memJ vJ).toList.map (fun o => o.getD false) =
+      [false, false, false, false, false, true, false, false, false, false, false, false, false, false, false, false] ∧
+    (majorityView 3 memJ vJn).toList.map (fun o => o.getD false) = List.replicate 16 false := by
+  decide +kernel
+end Mahotas.C08.Example4
+
+
+/-- **cooccurence over views = `C19.coocModel`.** `cooccurence<T>` (image through its iterator, the one-hot direction array
+as a compressed `ExtendIgnore` filter iterator built from the image's strides, `++res.at(val, val2)`) on ANY views of the
+image and of the direction array yields the matrix of the owner's model on the logical image, with the direction
+`d = position of the first non-zero entry of Bc − centre` — the definition `c19 kind=cooc` runs. -/
+theorem C08_coocView_eq_C19 (mm : Nat) (mA : Int → Int) (vA : View) (mB : Int → Int) (vB : View)
+    (h : FilterArgs vA vB true) (kk0 : Nat) (rest : List Nat)
+    (hfp : (List.range (shapeSize vB.shape)).filter (fun kk => (logical mB vB).getD kk 0 != 0) = kk0 :: rest) :
+    coocView mm mA vA mB vB =
+      C19.coocModel mm (toImg mA vA) (subPos (unravelI vB.shape kk0) (centreOf vB.shape)) :=
+  coocView_eq_C19 mm mA vA mB vB h kk0 rest hfp
+
+/-- **cooccurence is layout-free**: two (image, direction array) pairs of views with the same logical content give the same
+matrix. -/
+theorem C08_cooccurence_layout_free (mm : Nat) (mA₁ mA₂ mB₁ mB₂ : Int → Int) (vA₁ vA₂ vB₁ vB₂ : View)
+    (h₁ : FilterArgs vA₁ vB₁ true) (h₂ : FilterArgs vA₂ vB₂ true)
+    (hA : SameLogical mA₁ vA₁ mA₂ vA₂) (hB : SameLogical mB₁ vB₁ mB₂ vB₂) (kk0 : Nat) (rest : List Nat)
+    (hfp : (List.range (shapeSize vB₁.shape)).filter (fun kk => (logical mB₁ vB₁).getD kk 0 != 0) = kk0 :: rest) :
+    coocView mm mA₁ vA₁ mB₁ vB₁ = coocView mm mA₂ vA₂ mB₂ vB₂ := by
+  obtain ⟨hl, hs⟩ := logical_eq_of_toImg _ _ _ _ hB.toImg_eq
+  rw [coocView_eq_C19 mm mA₁ vA₁ mB₁ vB₁ h₁ kk0 rest hfp,
+    coocView_eq_C19 mm mA₂ vA₂ mB₂ vB₂ h₂ kk0 rest (by rw [← hl, ← hs]; exact hfp), hA.toImg_eq, hs]
+
+/-- **cooccurence is correct for any memory layout** (composition with `C19_cooc_counts`): with all values in `[0, mm)`,
+cell `(a, b)` of the matrix computed from ANY views is the number of positions `p` with `p` and `p + d` inside the image,
+`f p = a` and `f (p + d) = b`. -/
+theorem C08_cooccurence_view_correct (mm : Nat) (mA : Int → Int) (vA : View) (mB : Int → Int) (vB : View)
+    (h : FilterArgs vA vB true) (kk0 : Nat) (rest : List Nat)
+    (hfp : (List.range (shapeSize vB.shape)).filter (fun kk => (logical mB vB).getD kk 0 != 0) = kk0 :: rest)
+    (hv : ∀ p, 0 ≤ (toImg mA vA).getD p 0 ∧ (toImg mA vA).getD p 0 < (mm : Int))
+    (a b : Nat) (ha : a < mm) (hb : b < mm) :
+    (coocView mm mA vA mB vB).getD (a * mm + b) 0 =
+      C19.coocCount vA.shape (fun p => (toImg mA vA).getD p 0)
+        (subPos (unravelI vB.shape kk0) (centreOf vB.shape)) a b := by
+  rw [coocView_eq_C19 mm mA vA mB vB h kk0 rest hfp]
+  exact ((C19_cooc_counts mm (toImg mA vA) _ hv).2.2 a b ha hb).1
+
+example : (coocView 6 Mahotas.C08.Example4.memR Mahotas.C08.Example4.vRF Mahotas.C08.Example4.memX Mahotas.C08.Example4.vX).getD (1 * 6 + 5) 0 = 1 ∧
+    (coocView 6 Mahotas.C08.Example4.memR Mahotas.C08.Example4.vRF Mahotas.C08.Example4.memX Mahotas.C08.Example4.vX).getD (1 * 6 + 1) 0 = 3 ∧
+    coocView 6 Mahotas.C08.Example4.memR2 Mahotas.C08.Example4.vRN Mahotas.C08.Example4.memX Mahotas.C08.Example4.vX =
+      coocView 6 Mahotas.C08.Example4.memR Mahotas.C08.Example4.vRF Mahotas.C08.Example4.memX Mahotas.C08.Example4.vX := by
+  decide +kernel
+
+/-- **`iterate_both` reads the position from the array iterator** (closes the gap left in rounds 2/3, where the filter
+model carried its own copy of the odometer). The loop as the C++ runs it — `iterate_both` takes `index_rev(d)` and
+`dimension_rev(d)` from the ARRAY iterator (the transliterated `Iter` over a view of any strides), moves the table pointer,
+then `++iterator` — reaches after `i < size` iterations exactly the array iterator `begin().incrN i` and the table pointer
+of `FilterIter.stateAfter` (the state F6 `filterIter_refines` is about), so `retrieve` through the joint state is the
+`FiltV.retrieve` every view kernel of `Model/C08Base.lean` uses. -/
+theorem C08_iterate_both_reads_iterator_position {α : Type} (isNZ : α → Bool) (vA : View) (mF : Int → α) (vF : View)
+    (m : Mode) (compress : Bool) (h : FilterArgs vA vF compress) (mem : Int → α) (i : Nat)
+    (hi : i < shapeSize vA.shape) (j : Nat) :
+    (bothAfter (mkFiltV isNZ vA mF vF m compress).fi vA i).it = (Iter.begin vA).incrN i ∧
+    (bothAfter (mkFiltV isNZ vA mF vF m compress).fi vA i).cur =
+      (FilterIter.stateAfter (mkFiltV isNZ vA mF vF m compress).fi vA.shape i).cur ∧
+    retrieveBoth (mkFiltV isNZ vA mF vF m compress) mem vA i j =
+      (mkFiltV isNZ vA mF vF m compress).retrieve mem (iterPtr vA i) i j := by
+  have hc := bothAfter_cur m vA h.wfA vF.shape
+    (if compress then ((filtVals mF vF).map isNZ).toArray else Array.replicate (shapeSize vF.shape) true)
+    h.rank h.posA h.posF i (Nat.le_of_lt hi)
+  refine ⟨bothAfter_it _ vA i, hc, ?_⟩
+  unfold retrieveBoth FiltV.retrieve FilterIter.retrieve
+  simp only [bothAfter_it]
+  have hc' : (bothAfter (mkFiltV isNZ vA mF vF m compress).fi vA i).cur =
+      (FilterIter.stateAfter (mkFiltV isNZ vA mF vF m compress).fi (mkFiltV isNZ vA mF vF m compress).ashape i).cur := hc
+  rw [hc']
+  rfl
+
+example : (bothAfter (mkFiltV (fun x => x != 0) Mahotas.C08.Example4.vRF Mahotas.C08.Example4.memX Mahotas.C08.Example4.vX .nearest true).fi
+      Mahotas.C08.Example4.vRF 4).it.data = 4 ∧
+    retrieveBoth (mkFiltV (fun x => x != 0) Mahotas.C08.Example4.vRF Mahotas.C08.Example4.memX Mahotas.C08.Example4.vX .nearest true)
+      Mahotas.C08.Example4.memR Mahotas.C08.Example4.vRF 8 0 = some 1 := by decide +kernel
+
+/-- **T5, whole API (purity: arguments unchanged unless asked).** The translator scans ALL Python sources for calls of the 15
+native kernels that overwrite one of their array arguments (`_morph.subm`, `_labeled.label/relabel/remove_regions/slic`,
+`_distance.dt`, `_interpolate.spline_filter1d`, `_surf.integral`, `_thin.thin`, the six wavelet kernels) and records where
+the buffer handed over comes from (`Generated.inplaceSites`, regenerated on every run; a new call site appears by itself).
+At EVERY site found in the current sources (16 sites in 15 public functions at the time of writing; the
+statement does not pin the number, so that a new wrapper that copies does not alarm) the kernel receives —
+when the caller did not ask for in-place operation — a fresh array: allocated or copied in the wrapper (`distance`,
+`gvoronoi`, `slic`, `thin` ×2), the result of `_get_output` without `out` (`label`, `subm`, `spline_filter`,
+`spline_filter1d`), or the copy made by a guard of `copyGuards` (`haar`, `ihaar`, `daubechies`, `idaubechies`, `relabel`,
+`remove_regions`, `surf.integral`). So no native kernel can overwrite a caller's argument unless `out`, `inline`,
+`inplace` or `in_place` was passed. (That the listed numpy calls copy, and that kernels NOT in the list leave their inputs
+alone, is validated by the sweep's before/after digests of every argument and its root buffer.) -/
+theorem C08_inplace_kernels_receive_fresh_buffers :
+    10 ≤ Generated.inplaceSites.length ∧
+    (Generated.inplaceSites.all fun s => siteTarget Generated.copyGuards s == .copy) = true ∧
+    siteTarget Generated.copyGuards ("x.f", "_morph.subm", "param", "a") = .user := by
+  refine ⟨by decide, by decide +kernel, by decide +kernel⟩
+
+/-! ## Round 4 — the in-place wavelet kernels on strided rows (`haar`, `ihaar`, `daubechies`, `idaubechies`, `inline=True`
+included): `Model/C08ViewsB.lean`
+
+`toIm m v` is the image a 2-D view presents as the total function the C17 model works on; `Inj2` says that distinct
+positions of the view have distinct addresses (any signs/sizes of strides otherwise); `Local T` that a row transform reads
+its row only inside `[0, N)` (proved for the four transforms of `Model/C17.lean`). -/
+
+/-- **one native wavelet call on a strided view = the owner's row pass.** For ANY row transform `T` that is local (all four
+of `_convolve.cpp` are: `haarRow_local`, `ihaarRow_local`, `waveletRow_local`, `iwaveletRow_local`), any memory and any 2-D
+view whose positions have distinct addresses (C, Fortran, sliced with steps, reversed, offset — `step = stride(1)` of any
+sign): after `kernel(array)` — per row `data = array.data(y)`, reads `data[p*step]`, buffer, `data[step*x] = buffer[x]` —
+the view presents `C17.rowsPass T N1` of what it presented before, and every address that is not an element of the view
+keeps its content (padding between strided elements, neighbouring data of a slice: purity of `inline=True`). -/
+theorem C08_wavelet_rows_view_eq_C17 {α : Type} (T : Nat → (Nat → α) → Nat → α) (hT : Local T) (m : Mem α) (v : View)
+    (N0 N1 : Nat) (s0 s1 : Int) (hsh : v.shape = [N0, N1]) (hst : v.strides = [s0, s1])
+    (hinj : Inj2 v.base s0 s1 N0 N1) :
+    (∀ y x, y < N0 → x < N1 → toIm (rowsInPlaceView T m v) v y x = C17.rowsPass T N1 (toIm m v) y x) ∧
+    (∀ a, (∀ y x : Nat, y < N0 → x < N1 → a ≠ v.base + (y : Int) * s0 + (x : Int) * s1) →
+      (rowsInPlaceView T m v).rd a = m.rd a) :=
+  rowsInPlaceView_spec T hT m v N0 N1 s0 s1 hsh hst hinj
+
+/-- **haar / ihaar / daubechies / idaubechies on a strided view = the C17 models** (`convolve.py`: the kernel on `f`, then on
+`f.T`; `idaubechies` the other way round; the `/= 2`, `*= 2` of `preserve_energy` are numpy operations outside the
+kernels): for every injective 2-D view of any strides the view presents afterwards exactly `C17.haar2 false`,
+`C17.ihaar2 false`, `C17.daubechies2 cs`, `C17.idaubechies2 cs` of what it presented before — the definitions
+`c17 kind=t` runs —, and nothing outside the view is written. -/
+theorem C08_wavelets_view_eq_C17 {α : Type} [Add α] [Sub α] [Mul α] [Div α] [Neg α] [NatCast α] [IntCast α]
+    (cs : List α) (m : Mem α) (v : View)
+    (N0 N1 : Nat) (s0 s1 : Int) (hsh : v.shape = [N0, N1]) (hst : v.strides = [s0, s1])
+    (hinj : Inj2 v.base s0 s1 N0 N1) :
+    (∀ y x, y < N0 → x < N1 →
+      toIm (rowsThenCols C17.haarRow m v) v y x = C17.haar2 false N0 N1 (toIm m v) y x ∧
+      toIm (rowsThenCols C17.ihaarRow m v) v y x = C17.ihaar2 false N0 N1 (toIm m v) y x ∧
+      toIm (rowsThenCols (C17.waveletRow cs) m v) v y x = C17.daubechies2 cs N0 N1 (toIm m v) y x ∧
+      toIm (colsThenRows (C17.iwaveletRow cs) m v) v y x = C17.idaubechies2 cs N0 N1 (toIm m v) y x) ∧
+    (∀ a, (∀ y x : Nat, y < N0 → x < N1 → a ≠ v.base + (y : Int) * s0 + (x : Int) * s1) →
+      (rowsThenCols C17.haarRow m v).rd a = m.rd a ∧ (rowsThenCols C17.ihaarRow m v).rd a = m.rd a ∧
+      (rowsThenCols (C17.waveletRow cs) m v).rd a = m.rd a ∧ (colsThenRows (C17.iwaveletRow cs) m v).rd a = m.rd a) := by
+  have h1 := rowsThenCols_spec C17.haarRow haarRow_local m v N0 N1 s0 s1 hsh hst hinj
+  have h2 := rowsThenCols_spec C17.ihaarRow ihaarRow_local m v N0 N1 s0 s1 hsh hst hinj
+  have h3 := rowsThenCols_spec (C17.waveletRow cs) (waveletRow_local cs) m v N0 N1 s0 s1 hsh hst hinj
+  have h4 := colsThenRows_spec (C17.iwaveletRow cs) (iwaveletRow_local cs) m v N0 N1 s0 s1 hsh hst hinj
+  exact ⟨fun y x hy hx => ⟨h1.1 y x hy hx, h2.1 y x hy hx, h3.1 y x hy hx, h4.1 y x hy hx⟩,
+         fun a ha => ⟨h1.2 a ha, h2.2 a ha, h3.2 a ha, h4.2 a ha⟩⟩
+
+/-- **the wavelet kernels are layout-free**: two (memory, view) pairs — each injective, any strides — that present the same
+image present the same image after `K(f); K(f.T)`, for every local row transform `K`. -/
+theorem C08_wavelets_layout_free {α : Type} (T : Nat → (Nat → α) → Nat → α) (hT : Local T)
+    (m₁ m₂ : Mem α) (v₁ v₂ : View) (N0 N1 : Nat) (s0 s1 t0 t1 : Int)
+    (hsh₁ : v₁.shape = [N0, N1]) (hst₁ : v₁.strides = [s0, s1]) (hinj₁ : Inj2 v₁.base s0 s1 N0 N1)
+    (hsh₂ : v₂.shape = [N0, N1]) (hst₂ : v₂.strides = [t0, t1]) (hinj₂ : Inj2 v₂.base t0 t1 N0 N1)
+    (hsame : ∀ y x, y < N0 → x < N1 → toIm m₁ v₁ y x = toIm m₂ v₂ y x)
+    (y x : Nat) (hy : y < N0) (hx : x < N1) :
+    toIm (rowsThenCols T m₁ v₁) v₁ y x = toIm (rowsThenCols T m₂ v₂) v₂ y x := by
+  rw [(rowsThenCols_spec T hT m₁ v₁ N0 N1 s0 s1 hsh₁ hst₁ hinj₁).1 y x hy hx,
+    (rowsThenCols_spec T hT m₂ v₂ N0 N1 t0 t1 hsh₂ hst₂ hinj₂).1 y x hy hx]
+  exact passes_congr T hT N0 N1 _ _ hsame y x hx
+
+/-- **`ihaar(haar(f, inline=True), inline=True)` restores `f` for any memory layout** (composition with `C17_ihaar_haar`): over
+any field with `2 ≠ 0`, for every injective 2-D view with even sides, running the two native `haar` passes and then the two
+native `ihaar` passes in place leaves exactly `f` at every element of the view (`preserve_energy` off in both
+calls; with it on, numpy divides and multiplies by 2 outside the kernels). -/
+theorem C08_ihaar_haar_view_correct {K : Type} [Field K] (h2 : (2 : K) ≠ 0) (m : Mem K) (v : View)
+    (N0 N1 : Nat) (s0 s1 : Int) (hsh : v.shape = [N0, N1]) (hst : v.strides = [s0, s1])
+    (hinj : Inj2 v.base s0 s1 N0 N1) (h0 : N0 % 2 = 0) (h1 : N1 % 2 = 0)
+    (y x : Nat) (hy : y < N0) (hx : x < N1) :
+    toIm (rowsThenCols C17.ihaarRow (rowsThenCols C17.haarRow m v) v) v y x = toIm m v y x := by
+  rw [(rowsThenCols_spec C17.ihaarRow ihaarRow_local _ v N0 N1 s0 s1 hsh hst hinj).1 y x hy hx]
+  rw [passes_congr C17.ihaarRow ihaarRow_local N0 N1 _ (C17.colsPass C17.haarRow N0 (C17.rowsPass C17.haarRow N1 (toIm m v)))
+    (fun y x hy hx => (rowsThenCols_spec C17.haarRow haarRow_local m v N0 N1 s0 s1 hsh hst hinj).1 y x hy hx) y x hx]
+  exact C17_ihaar_haar h2 false N0 N1 h0 h1 (toIm m v) y x hy hx
+
+/-- **the defect repaired by 63fe463, as a theorem**: the pinned `ihaar<T>` computed the start of the high-pass half as
+`data + step*N1/2` = `(step*N1)/2`. For a row of odd length 3 walked with step 2 (a column of a 3×2 C-array) it reads address
+`data + 3`, which is not an element of the row (those are `data + 0, 2, 4`): two memories that agree on the whole row give
+different results, i.e. the value depended on memory outside the logical content; the repaired row (`C17.ihaarRow` on
+`data[p*step]`) reads element 1 = address `data + 2`. -/
+theorem C08_ihaar_pinned_wrong :
+    let m₁ : Int → Int := fun a => if a = 3 then 2 else 0
+    let m₂ : Int → Int := fun _ => 0
+    (∀ p : Nat, p < 3 → m₁ (0 + (p : Int) * 2) = m₂ (0 + (p : Int) * 2)) ∧
+    ihaarRowPinned 3 2 0 m₁ 0 ≠ ihaarRowPinned 3 2 0 m₂ 0 ∧
+    (∀ k, C17.ihaarRow 3 (fun p => m₁ (0 + (p : Int) * 2)) k = C17.ihaarRow 3 (fun p => m₂ (0 + (p : Int) * 2)) k) := by
+  refine ⟨?_, by decide, ?_⟩
+  · intro p hp
+    have : p = 0 ∨ p = 1 ∨ p = 2 := by omega
+    rcases this with rfl | rfl | rfl <;> decide
+  · intro k
+    apply ihaarRow_local
+    intro p hp
+    have : p = 0 ∨ p = 1 ∨ p = 2 := by omega
+    rcases this with rfl | rfl | rfl <;> decide
+
+namespace Mahotas.C08.Example4
+/-- a 2×4 image stored reversed along both axes with gaps (element strides −10 and −2, base 16); `haar` in place -/
+def memW : Mem Int := ⟨fun a => [0, 0, 8, 0, 7, 0, 6, 0, 5, 0, 0, 0, 4, 0, 3, 0, 2, 0, 1, 0].getD a.toNat 0⟩
+def vW : View := { base := 18, shape := [2, 4], strides := [-10, -2] }
+
+theorem injW : Inj2 vW.base (-10) (-2) 2 4 := by
+  intro y y' x x' hy hy' hx hx' h
+  simp only [vW] at h
+  omega
+
+example : (List.range 2).map (fun y => (List.range 4).map (toIm memW vW y)) = [[1, 2, 3, 4], [5, 6, 7, 8]] ∧
+    (List.range 2).map (fun y => (List.range 4).map (toIm (rowsThenCols C17.haarRow memW vW) vW y)) =
+      [[14, 22, 2, 2], [8, 8, 0, 0]] ∧
+    (List.range 2).map (fun y => (List.range 4).map (C17.haar2 false 2 4 (toIm memW vW) y)) =
+      [[14, 22, 2, 2], [8, 8, 0, 0]] ∧
+    (List.range 20).filter (fun (k : Nat) => (rowsThenCols C17.haarRow memW vW).rd (k : Int) ≠ memW.rd (k : Int)) =
+      [2, 4, 6, 8, 12, 14, 16, 18] := by decide +kernel
+
+/-- the injectivity hypothesis is needed: with a zero column stride both columns are the same cell, the second store wins and
+the view does not present the row transform -/
+def vZ : View := { base := 0, shape := [1, 2], strides := [0, 0] }
+example : toIm (rowsInPlaceView C17.haarRow ⟨fun _ => (1 : Int)⟩ vZ) vZ 0 0 = 0 ∧
+    C17.rowsPass C17.haarRow 2 (toIm ⟨fun _ => (1 : Int)⟩ vZ) 0 0 = 2 := by decide +kernel
+end Mahotas.C08.Example4
